@@ -11,10 +11,13 @@ import (
 
 // segLine is the part of a trace line that describes the INPUT.
 type segLine struct {
-	Ev  string `json:"ev"`
-	ID  string `json:"id"`
+	Ev    string `json:"ev"`
+	ID    string `json:"id"`
+	Stuck bool   `json:"stuck"`
 	Cfg *struct {
 		Has, Rst          [3]bool
+		Rk                [3]int
+		Inline            bool
 		Sco               bool
 		Scod              int
 		Norec, All, Flap  bool
@@ -29,15 +32,16 @@ type segLine struct {
 }
 
 // readSegments parses a trace file back into (cfg, input sequence) pairs.
-func readSegments(path string) ([]Cfg, []Seq, []int, error) {
+func readSegments(path string) ([]Cfg, []Seq, []int, []bool, error) {
 	f, err := os.Open(path)
 	if err != nil {
-		return nil, nil, nil, err
+		return nil, nil, nil, nil, err
 	}
 	defer f.Close()
 	var cfgs []Cfg
 	var seqs []Seq
 	var cuts []int
+	var stucks []bool
 	clock := 0
 	sc := bufio.NewScanner(f)
 	sc.Buffer(make([]byte, 1<<20), 1<<26)
@@ -47,27 +51,28 @@ func readSegments(path string) ([]Cfg, []Seq, []int, error) {
 		}
 		var ln segLine
 		if err := json.Unmarshal(sc.Bytes(), &ln); err != nil {
-			return nil, nil, nil, err
+			return nil, nil, nil, nil, err
 		}
 		switch ln.Ev {
 		case "Reset":
 			if ln.Cfg == nil {
-				return nil, nil, nil, fmt.Errorf("Reset line without setup")
+				return nil, nil, nil, nil, fmt.Errorf("Reset line without setup")
 			}
 			c := ln.Cfg
 			cfgs = append(cfgs, Cfg{Has: c.Has, Rst: c.Rst, Sco: c.Sco, Scod: c.Scod, NoRec: c.Norec, All: c.All,
-				Flap: c.Flap, Flo: c.Flo, Fhi: c.Fhi, H: c.H, Batch: c.Batch})
+				Flap: c.Flap, Flo: c.Flo, Fhi: c.Fhi, H: c.H, Batch: c.Batch, RK: c.Rk, Inline: c.Inline})
 			seqs = append(seqs, nil)
 			cuts = append(cuts, -1)
+			stucks = append(stucks, ln.Stuck)
 			clock = 0
 		case "Restart":
 			if len(seqs) == 0 {
-				return nil, nil, nil, fmt.Errorf("Restart line before Reset")
+				return nil, nil, nil, nil, fmt.Errorf("Restart line before Reset")
 			}
 			cuts[len(cuts)-1] = len(seqs[len(seqs)-1])
 		case "S":
 			if len(seqs) == 0 {
-				return nil, nil, nil, fmt.Errorf("S line before Reset")
+				return nil, nil, nil, nil, fmt.Errorf("S line before Reset")
 			}
 			st := Step{}
 			t := clock
@@ -80,13 +85,13 @@ func readSegments(path string) ([]Cfg, []Seq, []int, error) {
 			seqs[len(seqs)-1] = append(seqs[len(seqs)-1], st)
 		}
 	}
-	return cfgs, seqs, cuts, sc.Err()
+	return cfgs, seqs, cuts, stucks, sc.Err()
 }
 
 // Replay re-executes the inputs of a saved trace segment on the real code, each
 // sequence alone in its own task, and records a fresh trace.
 func Replay(r *rt.Run, path string) error {
-	cfgs, seqs, cuts, err := readSegments(path)
+	cfgs, seqs, cuts, stucks, err := readSegments(path)
 	if err != nil {
 		return err
 	}
@@ -96,11 +101,46 @@ func Replay(r *rt.Run, path string) error {
 	}
 	defer x.Close()
 	t := r.NewTrace("trace")
+	stuckDone := false
 	for i := range cfgs {
 		id := fmt.Sprintf("r%d", i+1)
-		obs, rep := x.Run(cfgs[i], []Seq{seqs[i]}, []string{id}, cuts[i])
-		emit(t, cfgs[i], id, seqs[i], obs[0], rep, cuts[i])
-		t.Distinct(cfgs[i].String() + "#" + seqs[i].key())
+		switch {
+		case stucks[i]:
+			// one ID alone cannot fill a handler queue: re-run the whole (fixed) scenario
+			if stuckDone {
+				continue
+			}
+			stuckDone = true
+			dcfg, dseqs := deliveryScenario()
+			dids := make([]string, len(dseqs))
+			for k := range dids {
+				dids[k] = fmt.Sprintf("d%d", k+1)
+			}
+			dx, err := NewExecBuf(1000)
+			if err != nil {
+				return err
+			}
+			dobs, drep := dx.Run(dcfg, dseqs, dids, runOpts{Cut: -1, Stuck: true})
+			dx.Close()
+			for k, s := range dseqs {
+				emit(t, dcfg, dids[k], s, dobs[k], drep, -1, true)
+				t.Distinct("stuck#" + s.key())
+			}
+		case cfgs[i].RK != [3]int{}:
+			// a stateful reset condition: the ID runs together with three more IDs fed the
+			// same points, interleaved through the same task (IDs must not influence each other)
+			ss := []Seq{seqs[i], seqs[i], seqs[i], seqs[i]}
+			ids := []string{id, id + "b", id + "c", id + "d"}
+			obs, rep := x.Run(cfgs[i], ss, ids, runOpts{Cut: cuts[i]})
+			for k := range ss {
+				emit(t, cfgs[i], ids[k], ss[k], obs[k], rep, cuts[i], false)
+			}
+			t.Distinct(cfgs[i].String() + "#" + seqs[i].key())
+		default:
+			obs, rep := x.Run(cfgs[i], []Seq{seqs[i]}, []string{id}, runOpts{Cut: cuts[i]})
+			emit(t, cfgs[i], id, seqs[i], obs[0], rep, cuts[i], false)
+			t.Distinct(cfgs[i].String() + "#" + seqs[i].key())
+		}
 	}
 	r.Finish("replay of the inputs of a saved trace segment on the real code", false)
 	return nil
